@@ -229,6 +229,14 @@ def run(ctx):
         elif r < 0.45:
             dur = rng.randrange(1, step)  # shorter than one step
         dur = min(dur, 3 * 3600 + step)
+        if rng.random() < 0.12:
+            # a request longer than one day (timedelta.days != 0), on a coarse step so the run stays short
+            step = rng.choice([3600, 7200, 21600])
+            dur = 86400 * rng.choice([1, 1, 2]) + rng.choice([0, step * rng.randrange(1, 4), rng.randrange(1, step)])
+            ctx.count("runs_longer_than_a_day")
+        # the target-date conversion alone, for requests from seconds to weeks
+        for dlong in (86400 * rng.randrange(1, 40), 86400 * rng.randrange(1, 40) + rng.randrange(1, 86400), rng.randrange(1, 86400)):
+            check_target_jd(ctx, start, dlong)
         out_step = rng.choice([None, None, step * 2, step * 3])
         check_target_jd(ctx, start, dur)
         check_run(ctx, start, step, dur, out_step)
